@@ -1038,6 +1038,9 @@ func (s *sharedEntryAttributes) validatePattern(resultChan chan<- *types.Validat
 			return
 		}
 		lv := s.leafVariants.GetHighestPrecedence(false, true)
+		if lv == nil {
+			return
+		}
 		tv, err := lv.Update.Value()
 		if err != nil {
 			resultChan <- types.NewValidationResultEntry(lv.Owner(), fmt.Errorf("failed reading value from %s LeafVariant %v: %w", s.Path(), lv, err), types.ValidationResultEntryTypeError)
@@ -1214,8 +1217,8 @@ func (s *sharedEntryAttributes) validateMandatoryWithKeys(ctx context.Context, l
 		if !(existsInTree && v.remainsToExist()) {
 			exists, err := s.treeContext.cacheClient.IntendedPathExists(ctx, append(s.Path(), attribute))
 			owner := "unknown"
-			if s.leafVariants.Length() > 0 {
-				s.leafVariants.GetHighestPrecedence(false, true).Owner()
+			if lv := s.leafVariants.GetHighestPrecedence(false, true); lv != nil {
+				owner = lv.Owner()
 			}
 			if err != nil {
 				resultChan <- types.NewValidationResultEntry(owner, fmt.Errorf("error validating mandatory childs %s: %v", s.Path(), err), types.ValidationResultEntryTypeError)
@@ -1539,6 +1542,10 @@ func (s *sharedEntryAttributes) containsOnlyDefaults() bool {
 	for k, v := range s.childs.GetAll() {
 		// check if child name is part of ChildsWithDefaults
 		if !slices.Contains(contSchema.ChildsWithDefaults, k) {
+			return false
+		}
+		// a child that is explicitly being deleted is still to be processed, even if it falls back to its default
+		if v.shouldDelete() {
 			return false
 		}
 		// check if the value is the default value
